@@ -80,6 +80,8 @@ inductive Qry where
   -- round 3: nested elements of two map symbols (tags: bucket prefix ext/meta, attrs: prefix ext/meta/deep)
   | qMap (k v : Nat)              -- QueryIds  <mapKeyName k> = "s<v>"
   | iMap (ka kb id : Nat)         -- A := GetSymbol(<name ka>); B := GetSymbol(<name kb>); A.Eval(tx, a<id>), B.Eval(tx, a<id>) decoded; 9 = nil
+  -- round 4: one compiled query object (explicit skip and limit) run by several read transactions at once
+  | qShared (j : Nat)             -- QueryIdsC(tx, q_j), q_j = ast.Parse(things, c18SharedTexts[j]) parsed once and shared
   deriving DecidableEq, Repr
 
 /-- the value the harness stores under nested map key number `k` for an entity of rank `r` (as "s<value>"):
@@ -96,6 +98,27 @@ def mapVal (k r : Nat) : Nat :=
   | 6 => (r + 1) % 3
   | 7 => r % 3
   | _ => 9
+
+/-- "n<name>" starts with "n1" -/
+def nameStartsN1 (name : Nat) : Bool := (Nat.toDigits 10 name).head? == some '1'
+
+/-- the predicates of the shared query texts (harness/c18_shared.go c18SharedTexts), text 12 is the sorted one -/
+def sharedPred (j : Nat) (e : Ent) : Bool :=
+  match j with
+  | 0 => [100, 121, 150, 162].contains e.name                        -- name in ["n100", "n121", "n150", "n162", "zz"]
+  | 1 => [1, 3, 5].contains e.rank                                   -- rank in [1, 3, 5]
+  | 2 => [0, 2].contains e.rank                                      -- rank in [0.0, 2.0, 4.5]
+  | 3 => 1 ≤ e.rank && e.rank < 3                                    -- rank between 1 and 3   (upper bound exclusive)
+  | 4 => nameStartsN1 e.name                                         -- name icontains "N1"
+  | 5 => e.roles.contains 1                                          -- anyOf(roles) = "r1"
+  | 6 => e.roles.isEmpty                                             -- isEmpty(roles)
+  | 7 => e.groups.contains 1                                         -- anyOf(groups.label) = "L1"
+  | 8 => e.groups.contains 1                                         -- count(from groups where label = "L1" skip 0 limit 10) > 0
+  | 9 => e.id % 2 == 0 && (mapVal 0 e.rank == 0 || mapVal 0 e.rank == 1)   -- even = true and tags.site.name in ["s0", "s1"]
+  | 10 => e.roles.contains 0 || e.roles.contains 2                   -- anyOf(roles) in ["r0", "r2"]
+  | 11 => !([100, 110, 120].contains e.name && 2 ≤ e.rank)           -- not (name in [..]) and rank >= 2 : `not` takes the whole conjunction
+  | 13 => !([100, 131].contains e.name) && nameStartsN1 e.name       -- name not in ["n100", "n131"] and name contains "n1"
+  | _ => true
 
 /-- the externally computed symbols of the harness' store: pure functions of the row id -/
 def extEven (id : Nat) : Bool := id % 2 == 0
@@ -133,6 +156,9 @@ def evalQ (q : Qry) (v : Ver) : List Nat :=
   | .qExt n => (v.filter (fun e => extStr e.id == some n)).map (·.id)
   | .vEven a b => [if extEven a then 1 else 0, if extEven b then 1 else 0]
   | .vExt a b => [extStrCode a, extStrCode b]
+  | .qShared j =>
+    if j == 12 then (((v.foldl (fun acc e => insertTop e acc) []).drop 1).take 3).map (·.id)   -- true sort by rank desc skip 1 limit 3
+    else (v.filter (sharedPred j)).map (·.id)
   | .qMap k val => (v.filter (fun e => mapVal k e.rank == val)).map (·.id)
   | .iMap ka kb id => match findEnt id v with | some e => [mapVal ka e.rank, mapVal kb e.rank] | none => [9, 9]
 
